@@ -46,3 +46,13 @@ Proof. exact C13_full. Qed.
 Example C13_full_empty_value_refuted : exists c hist, run 1 [(0, []); (1, [x07]); (2, [x08])] = Some (c, hist) /\
   cfull c = true /\ c_queue c = [0; 1; 2] /\ length hist = 3%nat.
 Proof. eexists. eexists. vm_compute. repeat split. Qed.
+
+(* non-vacuity: a reachable state whose full flag is set after evictions, with retrievable and evicted keys *)
+Example C13_example : exists c hist, reachable c hist /\ NoEmptyStored hist /\ cfull c = true /\
+  retrievable c 2 /\ ~ retrievable c 3 /\ clen c = 3.
+Proof.
+  destruct ring_sanity as [c [hist [H1 [H2 [_ [H4 [H5 [_ [H7 [H8 _]]]]]]]]]]. exists c, hist.
+  split; [exists 6, ex_ops; exact H1|split; [exact H2|split; [exact H5|split; [exists [x0a; x0a]; exact H7|split]]]].
+  - intros [v Hv]. rewrite H8 in Hv. discriminate.
+  - rewrite (C13_len_exact c hist (ex_intro _ 6 (ex_intro _ ex_ops H1))), H4. reflexivity.
+Qed.
